@@ -220,10 +220,10 @@ def nested_named_decls(rng):
     decls.append("const COUNT: usize = %s;\n" % rng.choice(["3", "2", "ROWS + 1" if levels == 2 else "2"]))
     if levels == 2:
         decls.append("const ROWS: usize = %d;\n" % rng.randrange(1, 3))
-        decls.append("struct Mid\n{\n\tflag: bool,\n\tcells: [ROWS]Inner,\n}\n")
-        decls.append("struct Outer\n{\n\ttag: u8,\n\titems: [COUNT]Mid,\n}\n")
+        decls.append("struct Mid\n{\n\tflag: bool,\n\tcells: [%s]Inner,\n}\n" % rng.choice(["ROWS", "2"]))
+        decls.append("struct Outer\n{\n\ttag: u8,\n\titems: [%s]Mid,\n}\n" % rng.choice(["COUNT", "COUNT", "3"]))
     else:
-        decls.append("struct Outer\n{\n\ttag: u8,\n\titems: [COUNT]Inner,\n}\n")
+        decls.append("struct Outer\n{\n\ttag: u8,\n\titems: [%s]Inner,\n}\n" % rng.choice(["COUNT", "2"]))
     return decls, "Outer"
 
 
@@ -237,6 +237,25 @@ def run_layout(case):
         mem = random_members(rng, names)
         decls.append("struct %s\n{\n%s}\n" % (name, "".join("\tf%d: %s,\n" % (q, m) for q, m in enumerate(mem))))
         names.append(name)
+    # words, exactly filled and under-filled (a word occupies what its members occupy)
+    for j in range(rng.randrange(0, 3)):
+        bits = rng.choice([16, 32, 64, 128])
+        wm = []
+        used = 0
+        maxal = 1
+        for _ in range(rng.randrange(1, 4)):
+            ty = rng.choice(["u8", "bool", "i8", "u16", "i16", "u32"])
+            al = SIZES[ty]
+            end = (used + al - 1) // al * al + SIZES[ty]
+            total = (end + max(maxal, al) - 1) // max(maxal, al) * max(maxal, al)
+            if total <= bits // 8:       # members at their alignment, the whole rounded up to the widest member
+                wm.append(ty)
+                used = end
+                maxal = max(maxal, al)
+        if not wm:
+            wm = ["u8"]
+        decls.append("word%d W%d\n{\n%s}\n" % (bits, j, "".join("\tf%d: %s,\n" % (q, m) for q, m in enumerate(wm))))
+        names.append("W%d" % j)
     t = rng.choice(names + [rng.choice(PRIMS), "[3]" + rng.choice(PRIMS)])
     if i % 3 == 2:
         decls, t = nested_named_decls(rng)
